@@ -1272,11 +1272,11 @@ def check(ctx) -> Result:
             break
         case = gen_case(rng, complete=True, with_mev=True, size=rng.randint(4, 10))
         case['share'] = False
-        check_nested(ctx, res, case, rng, n_configs=ctx.n(3, 4))
+        check_nested(ctx, res, case, rng, n_configs=3)
         if sorted(set().union(*[set(x) for x in case['mev']['segments']])) == sorted(case['ids']):
             check_cnl_full(ctx, res, case, rng)
         done += 1
-    for _ in range(ctx.n(6, 100)):
+    for _ in range(ctx.n(6, 60)):
         case = gen_case(rng, complete=False, with_mev=True, size=rng.randint(4, 10))
         case['share'] = False
         check_nested(ctx, res, case, rng, n_configs=2)
